@@ -29,10 +29,14 @@ func c08Cut(rng *sim.Rand, d, n int) []Op {
 	// cut [0,n) at random 8-byte-aligned points
 	var ops []Op
 	pos := 0
+	fine := rng.Chance(0.25) // all pieces 8 bytes long: a long datagram then has dozens of fragments and holes
 	for pos < n {
 		l := 8 * rng.Range(1, 4)
 		if rng.Chance(0.2) {
 			l = 8 * rng.Range(1, 12)
+		}
+		if fine {
+			l = 8
 		}
 		end := pos + l
 		if end >= n {
@@ -72,6 +76,9 @@ func (c08) Gen(rng *sim.Rand, tier string) *Case {
 	var pool [2][]Op // fragments per phase
 	for d := 0; d < nd; d++ {
 		n := rng.Range(9, maxLen)
+		if rng.Chance(0.2) {
+			n = rng.Range(130, 400) // long enough for more than sixteen fragments
+		}
 		c.Params[fmt.Sprintf("len%d", d)] = n
 		cuts := 1
 		if rng.Chance(0.3) {
